@@ -353,7 +353,22 @@ def r_idxmut(p):
     return {'s': str(sorted(d.items())), 't': '', 'mut': []}
 
 
-RECIPES = {'tkeys': r_tkeys, 'idxmut': r_idxmut, 'tgrad': r_tgrad, 'tvec': r_tvec, 'form': r_form, 'logical': r_logical, 'symbolic': r_symbolic,
+def r_chain(p):
+    """a chain of coordinate operators applied one after the other (innermost first): the result of
+    each application must not depend on which other chains over the same function were built before"""
+    from sympde.topology import element_of
+    from sympde.topology import derivatives as dv
+    O = mk_domain(p['dom'])
+    u = element_of(mk_space(p['sp'], O), p['fn'])
+    e = u
+    for name in p['ops']:
+        e = getattr(dv, name)(e)
+    ins = [('u', u)]
+    b = snap(ins)
+    return result(e, ins, b)
+
+
+RECIPES = {'chain': r_chain, 'tkeys': r_tkeys, 'idxmut': r_idxmut, 'tgrad': r_tgrad, 'tvec': r_tvec, 'form': r_form, 'logical': r_logical, 'symbolic': r_symbolic,
            'idxder': r_idxder, 'hodge': r_hodge, 'union': r_union, 'join': r_join, 'comm': r_comm,
            'equation': r_equation, 'mapped': r_mapped}
 
